@@ -50,10 +50,8 @@ EX = {
         "u64 sum of the sizes of the files in one directory",
     ("tauri_typegen::interface::output::ProgressReporter::start_step", "overflow:Add:current_step"):
         "usize step counter incremented once per reported step",
-    ("tauri_typegen::analysis::type_resolver::TypeResolver::parse_two_type_params", "overflow:i32-depth-counter"):
+    ("tauri_typegen::analysis::type_resolver::split_top_level_commas", "overflow:i32-depth-counter"):
         "i32 nesting counter changes by one per character of a type string (assumption: type strings are shorter than 2^31 bytes)",
-    ("tauri_typegen::analysis::type_resolver::TypeResolver::parse_two_type_params", "str-index:[char_indices-index + 1..]"):
-        "pos is the char_indices() offset of a ',' (the only arm that assigns comma_pos matches ','), a 1-byte character, so pos + 1 is the next boundary",
     ("tauri_typegen::analysis::validator_parser::ValidatorParser::parse_message_from_content", "str-index:[1..]:after-ascii-quote"):
         "after_eq[1..] runs only when after_eq.chars().next() is '\"' or '\\'' (1-byte ASCII), so 1 is a boundary within the string (both equality tests feed the dominating branch: re-checked)",
 }
